@@ -13,7 +13,7 @@ import (
 // (run.go, monitorPrefix); here the end-of-call clauses.
 
 func init() {
-	register(&Property{ID: "C01", Scenarios: c01Scenarios, Oracle: c01Oracle})
+	register(&Property{ID: "C01", Timers: true, Scenarios: c01Scenarios, Oracle: c01Oracle})
 }
 
 func c01Scenarios(tier string) []*Scenario {
